@@ -431,6 +431,69 @@ def rejections(run, repo, anchor):
                   % show(r), m, fn)
 
 
+HISTORY_IDS = [
+    # (label, identifiers, delimiter of the first call, delimiter of the second call).  Under the second delimiter the
+    # identifiers cannot be encoded (what follows it is no integer), or split at another place
+    ("prefix containing the other delimiter, '-' then '_'", ['a_1-0005', 'a_1-0006', 'a_1-0008'], '-', '_'),
+    ("no '_' in the identifiers, '-' then '_'", ['x-0007', 'x-0008', 'y-0002'], '-', '_'),
+    ("'.' then '-'", ['rxn-a.0002', 'rxn-a.0001', 's.0004'], '.', '-'),
+    ("'_' then '.'", ['r.b_0001', 'r.b_0002', 'r.b_0004', 'q_0003'], '_', '.'),
+    ("no delimiter at all, '-' then '_'", ['0003', '0001', '0002', '0007'], '-', '_'),
+]
+
+
+def _outcome(I, r):
+    """what a caller sees of one call: the error class, or the entries / the text returned"""
+    if isinstance(r, Raised):
+        return ('raises', r.exc)
+    if isinstance(r, ListV):
+        return ('list', tuple(I.plain(e) for e in r.items))
+    return ('value', I.plain(r))
+
+
+def delimiter_history(run, repo, anchor):
+    """several calls in one process: a call answers for ITS arguments, whatever was asked before.  The same identifiers
+    are handed over first with one delimiter and then with another one (the second call differs in that argument
+    only); each call of the history must give what the same call gives when it is the first one after import - ids
+    that cannot be encoded with the second delimiter are rejected, not re-emitted with the split of the first call -
+    and the caller's collection is left as it was.  Variants: a new collection per call / the same collection object
+    reused; strings / objects with id; the second call in list form and in string form; the first delimiter again
+    after the second."""
+    m, fn, par = anchor
+    n = 0
+    for label, ids_, d1, d2 in HISTORY_IDS:
+        for how, reuse in (('strings', False), ('strings', True), ('objects with id', True)):
+            for form2 in ('list', None):
+                # (delimiter, output form) of the calls, in order
+                calls = [(d1, 'list'), (d2, form2), (d1, None), (d2, 'list' if form2 is None else None)]
+                # reference: every call on its own, first thing after import
+                fresh = []
+                for dl, form in calls:
+                    If = Interp(repo)
+                    pf = Obj('parent', repo.cls('pmutt._pmuttBase'))
+                    fresh.append(_outcome(If, call_range(If, anchor, given_as(ids_, how, If), form, dl, pf)))
+                I = Interp(repo)
+                parent = Obj('parent', repo.cls('pmutt._pmuttBase'))
+                shared = given_as(ids_, how, I)
+                before = list(shared.items)
+                for k, (dl, form) in enumerate(calls):
+                    objs = shared if reuse else given_as(ids_, how, I)
+                    got = _outcome(I, call_range(I, anchor, objs, form, dl, parent))
+                    n += 1
+                    tag = '%s, %s, %s' % (label, how, 'same collection object' if reuse else 'new collection per call')
+                    past = ', '.join('delimiter=%r' % c[0] for c in calls[:k]) or 'nothing'
+                    run.check(got == fresh[k], 'REF.range-history', 'cantera._get_omkm_range',
+                              'other delimiter after a first call',
+                              '[%s] call %d (delimiter=%r, %s form) after %s: identifiers %s give %s, but %s when this is '
+                              'the first call after import: the answer depends on what was asked before'
+                              % (tag, k + 1, dl, form or 'string', past, ids_, got[1:], fresh[k][1:]), m, fn,
+                              sample='%s: %r then %r -> %s' % (ids_, d1, d2, got[:2]) if k == 1 and n % 8 == 2 else None)
+                run.check(len(shared.items) == len(before) and all(x is y for x, y in zip(shared.items, before)),
+                          'EFFECT.range-argument', 'cantera._get_omkm_range', 'collection handed over is unchanged',
+                          '[%s] the collection handed over is changed by the calls' % label, m, fn)
+    return n
+
+
 # ---------------------------------------------------------------------------------------------------------------------
 # the writers that emit the ranges: the reactions= / interactions= fields of phases, the member lists of BEP relations
 
@@ -823,7 +886,10 @@ def check(run, repo):
         'base and concrete offsets, printed with a known width): 4 prefix shapes x 13 offset patterns (single, '
         'unsorted, gaps, duplicates, duplicates with holes) x 2 suffix widths x optional interleaved second prefix x '
         'ways of handing them over, each identifier spelled as it came; ids that are no strings (also None) and '
-        'suffixes that are no integers are rejected in both output forms; (c) through every writer that emits ranges '
+        'suffixes that are no integers are rejected in both output forms; histories of four calls in one process, the '
+        'same identifiers with one delimiter, then with another under which they cannot be encoded, then each again '
+        '(new collection per call and the same collection object, strings and objects, both output forms): every '
+        'call answers as it does when it is the first call after import, the collection is unchanged; (c) through every writer that emits ranges '
         '- IdealGas.to_cti (cantera and omkm), InteractingInterface.to_cti (reactions= and interactions=), BEP.to_cti '
         'and BEP.to_omkm_yaml (both member lists), objects built by their constructors, members given as lists and as '
         'tuples - with the default delimiter and with - and . : the field read back from the entry must denote '
@@ -851,6 +917,8 @@ def check(run, repo):
     run.floor('range cases, concrete identifiers', n, 55)
     known_respelling(run, repo, ra)
     rejections(run, repo, ra)
+    n = delimiter_history(run, repo, ra)
+    run.floor('calls in a history of delimiters', n, 100)
     n = callers(run, repo)
     run.floor('writers of ranges (phases, BEP relations) x delimiters', n, 30)
     n = wrapping_concrete(run, repo, wa, thorough)
@@ -998,6 +1066,12 @@ MUTANTS = [
     {'name': 'x3 writers: the interface writes its interactions under reactions too',
      'expect': ('REF.range-writers', 'InteractingInterface.to_cti'),
      'edits': [(P_, "            val = getattr(self, range_field)\n", "            val = getattr(self, range_fields[0])\n")]},
+    # ---- round 7
+    {'name': 'ranges: the place of the split remembered per identifier text, whatever the delimiter',
+     'expect': ('REF.range-history', '_get_omkm_range'),
+     'edits': [(C_, 'import more_itertools as mit\n', 'import more_itertools as mit\n\n_split_at = {}\n'),
+               (C_, '            i = obj_id.rfind(delimiter)',
+                '            i = _split_at.setdefault(obj_id, obj_id.rfind(delimiter))')]},
 ]
 EQUIV = [
     {'name': 'the id is looked up with hasattr instead of try/except',
